@@ -24,6 +24,7 @@ type c10Case struct {
 	Msgs      []string `json:"msg_types"`
 	Signer    string   `json:"signer_class"`
 	Signer2   string   `json:"second_signer_class,omitempty"`
+	FeePayer  string   `json:"fee_payer_class,omitempty"` // a second account that pays the fee and co-signs
 	Memo      string   `json:"memo"`
 	Timeout   string   `json:"timeout"` // 0 h-1 h h+1
 	Sig       string   `json:"signature"`
@@ -96,8 +97,8 @@ func isRelayerNS(u string) bool {
 
 // c10Ref is the admission predicate written from the property statement.
 func c10Ref(c *c10Case) bool {
-	if c.Signer2 != "" || c.Memo != "" || c.Sig != "valid" || c.Signer == "account-less" {
-		return false
+	if c.Signer2 != "" || c.FeePayer != "" || c.Memo != "" || c.Sig != "valid" || c.Signer == "account-less" {
+		return false // more than one signer (a second message signer or a separate fee payer), memo, bad signature
 	}
 	// CheckTx runs against the last committed height h-1: a timeout of h-1 has not expired there yet
 	if c.Timeout == "h-2" || (c.Timeout == "h-1" && c.Mode != "check") {
@@ -159,6 +160,29 @@ func c10Build(w *enga.World, c *c10Case) ([]byte, sim.Key) {
 		signKey = sim.Key{Name: "forger", Priv: signKey.Priv}
 	case "wrong-sequence":
 		seq++
+	}
+	if c.Signer2 != "" || c.FeePayer != "" {
+		// every signer really signs: the transaction is refused for having two signers, not for a
+		// missing signature
+		keys, nums, seqs := []sim.Key{key}, []uint64{num}, []uint64{seq}
+		var payer sdk.AccAddress
+		for _, cls := range []string{c.Signer2, c.FeePayer} {
+			if cls == "" {
+				continue
+			}
+			k2, _ := c10Signer(w, cls)
+			n2, s2, _ := w.N.Account(w.N.Ctx(), k2.Addr())
+			if cls == "consensus-proposer" && !hasEth && (c.Mode == "process" || c.Mode == "finalize") {
+				s2++
+			}
+			keys, nums, seqs = append(keys, k2), append(nums, n2), append(seqs, s2)
+			if cls == c.FeePayer && c.FeePayer != "" {
+				payer = k2.Addr()
+			}
+		}
+		tx, err := sim.SignTxMulti(w.N.TxCfg, w.N.Cfg.ChainID, keys, nums, seqs, payer, th, c.Memo, msgs...)
+		must(err)
+		return tx, key
 	}
 	tx, err := sim.SignTxAs(w.N.TxCfg, w.N.Cfg.ChainID, key, signKey, num, seq, th, c.Memo, msgs...)
 	must(err)
@@ -262,7 +286,7 @@ func c10Eval(w *enga.World, c *c10Case) (admitted bool, foreignEffect string) {
 }
 
 func runC10(r *mc.Run) {
-	r.Rule = "every sdk.Msg implementation registered in the application's interface registry (discovered at run time) x signer class (relayer proposer, other relayer member, consensus proposer, other validator, account-less key) x memo x timeout height {0,h-2,h-1,h,h+1} x signature {valid, wrong key, wrong sequence} x mode {CheckTx, prepare via mempool, ProcessProposal, FinalizeBlock}, before and after a relayer election; compositions (allowed+allowed, allowed+foreign, block-message+allowed, allowed+block-message, two signers); ReCheck after an election; oracle = admission predicate from the statement; foreign messages must leave every store equal to the same block without them"
+	r.Rule = "every sdk.Msg implementation registered in the application's interface registry (discovered at run time) x signer class (relayer proposer, other relayer member, consensus proposer, other validator, account-less key) x memo x timeout height {0,h-2,h-1,h,h+1} x signature {valid, wrong key, wrong sequence} x mode {CheckTx, prepare via mempool, ProcessProposal, FinalizeBlock}, before and after a relayer election; compositions (allowed+allowed, allowed+foreign, block-message+allowed, allowed+block-message, two message signers that both sign, a separate fee payer that co-signs - also for the block message alone and for two block messages of two accounts); ReCheck after an election; oracle = admission predicate from the statement; foreign messages must leave every store equal to the same block without them"
 	r.Assumptions = []string{"CheckTx is exercised on an application that has committed a block (a freshly restarted App checks at height 0 until its first commit: SDK behaviour)", "ReCheck only concerns transactions previously admitted by CheckTx"}
 	base, err := enga.NewWorld(c08Cfg())
 	if err != nil {
@@ -317,6 +341,12 @@ func runC10(r *mc.Run) {
 						&c10Case{Msgs: []string{ethBlockURL, "/cosmos.consensus.v1.MsgUpdateParams"}, Signer: s, Timeout: th, Sig: "valid", Mode: md, Elected: el},
 						&c10Case{Msgs: []string{ethBlockURL, ethBlockURL}, Signer: s, Timeout: th, Sig: "valid", Mode: md, Elected: el},
 						&c10Case{Msgs: []string{allowed, allowed2}, Signer: "relayer-proposer", Signer2: "other-relayer-member", Timeout: th, Sig: "valid", Mode: md, Elected: el},
+						&c10Case{Msgs: []string{allowed}, Signer: "relayer-proposer", FeePayer: "other-relayer-member", Timeout: th, Sig: "valid", Mode: md, Elected: el},
+						&c10Case{Msgs: []string{allowed}, Signer: "relayer-proposer", FeePayer: "consensus-proposer", Timeout: th, Sig: "valid", Mode: md, Elected: el},
+						&c10Case{Msgs: []string{ethBlockURL}, Signer: "consensus-proposer", FeePayer: "other-validator", Timeout: th, Sig: "valid", Mode: md, Elected: el},
+						&c10Case{Msgs: []string{ethBlockURL}, Signer: "consensus-proposer", FeePayer: "relayer-proposer", Timeout: th, Sig: "valid", Mode: md, Elected: el},
+						&c10Case{Msgs: []string{ethBlockURL, ethBlockURL}, Signer: "consensus-proposer", Signer2: "other-validator", Timeout: th, Sig: "valid", Mode: md, Elected: el},
+						&c10Case{Msgs: []string{ethBlockURL, ethBlockURL}, Signer: "consensus-proposer", Signer2: "relayer-proposer", Timeout: th, Sig: "valid", Mode: md, Elected: el},
 					)
 				}
 			}
